@@ -91,7 +91,15 @@ ObsGreet(o, id, r) ==
   IN Fault([o1 EXCEPT !.slots = Append(@, Slot("GREET", id, r)),
                       !.ph = IF r \in SrvPos THEN "greeted" ELSE "refused"], r)
 
-(* e = [verb, par (set of MAIL parameters), ak, an, id, r, tls] *)
+(* the name in EHLO / LHLO / HELO: "local" = localhost, "name" = the configured host name.  With STARTTLS     *)
+(* required "maddy will use localhost as HELO hostname before STARTTLS and will only send its actual hostname *)
+(* after STARTTLS" (docs/reference/targets/smtp.md)                                                           *)
+HelloName(o, e) ==
+  IF o.call.c # "Connect" THEN o
+  ELSE IF o.call.a.tls /\ ~e.tls THEN V(o, e.hn = "local", "HostnameBeforeStarttls")
+  ELSE V(o, e.hn = "name", "WrongHelloName")
+
+(* e = [verb, hn (hello name), par (set of MAIL parameters), ak, an, id, r, tls] *)
 ObsCmd(o, e) ==
   LET c  == o.call.c
       a  == o.call.a
@@ -100,9 +108,9 @@ ObsCmd(o, e) ==
       o0 == V(o, e.verb \in VerbsOf(c), "UnexpectedCommand")
       o1 ==
         CASE e.verb \in {"EHLO", "LHLO"} ->
-               V(o0, (e.verb = "LHLO") = o.lmtp, "WrongHello")
+               HelloName(V(o0, (e.verb = "LHLO") = o.lmtp, "WrongHello"), e)
           [] e.verb = "HELO" ->
-               V(V(o0, ~o.lmtp, "HeloOnLMTP"), o.heloOK, "HeloWithoutEhloRefusal")
+               HelloName(V(V(o0, ~o.lmtp, "HeloOnLMTP"), o.heloOK, "HeloWithoutEhloRefusal"), e)
           [] e.verb = "STARTTLS" ->
                V(o0, "STARTTLS" \in o.ext /\ ~o.tls /\ ph = "ready", "StarttlsNotOffered")
           [] e.verb = "MAIL" ->
@@ -178,9 +186,11 @@ StatusesOK(o, res, dots) ==
       o1 == V(o, n <= Len(dots) /\ n <= Len(o.accw), "StatusWithoutReply")
       m == IF n <= Len(dots) /\ n <= Len(o.accw) THEN n ELSE 0
       o2 == V(o1, \A i \in 1..m : res.sts[i].ak = o.accw[i].ak /\ res.sts[i].an = o.accw[i].an, "StatusUnderWrongAddress")
+      (* a per-recipient 552 reaches the callback as it is (no 552 -> 452 rewrite there): either class *)
       o3 == V(o2, \A i \in 1..m : /\ (dots[i].r \in PosNow) = (res.sts[i].cls = "ok")
                                    /\ dots[i].r \in (Neg4 \cup Neg5) =>
-                                        (res.sts[i].cls = ClassOf(dots[i].r) /\ res.sts[i].id = dots[i].id),
+                                        /\ res.sts[i].id = dots[i].id
+                                        /\ res.sts[i].cls = ClassOf(dots[i].r) \/ (dots[i].r = "p552" /\ res.sts[i].cls = "perm"),
               "StatusOfAnotherRecipient")
   IN V(o3, (res.cls = "ok" /\ \A i \in 1..Len(dots) : dots[i].r \notin ConnK) => n = Len(o.accw), "MissingStatus")
 
